@@ -13,10 +13,10 @@ TESTS=$(grep -o '^func \(Test[A-Za-z0-9_]*\)' "$DIR/zz_seeded_demo_test.go" | se
 SUITEFN=$(grep -o 'func (suite \*[A-Za-z]*) \(Test[A-Za-z0-9_]*\)' "$DIR/zz_seeded_demo_test.go" | awk '{print $4}' | tr '\n' '|' | sed 's/|$//')
 RUNARG="-run ^($TESTS)\$"
 if [ -z "$TESTS" ] && [ -n "$SUITEFN" ]; then RUNARG="-run . -testify.m ^($SUITEFN)\$"; fi
-go test -count=1 $RUNARG "./$DIR/" > /tmp/confirm_clean.$$ 2>&1; c1=$?
+go test -tags verif -count=1 "./$DIR/" $RUNARG > /tmp/confirm_clean.$$ 2>&1; c1=$?
 git apply "$S/patch.diff" || { echo "$S: patch does not apply"; rm -f "$DIR/zz_seeded_demo_test.go"; exit 2; }
 go build ./... > /tmp/confirm_build.$$ 2>&1; cb=$?
-go test -count=1 $RUNARG "./$DIR/" > /tmp/confirm_mut.$$ 2>&1; c2=$?
+go test -tags verif -count=1 "./$DIR/" $RUNARG > /tmp/confirm_mut.$$ 2>&1; c2=$?
 rm -f "$DIR/zz_seeded_demo_test.go"
 cs="skipped"
 if [ -n "$SUITE" ]; then
